@@ -147,7 +147,7 @@ def run_unit(spec):
     res["vacuity"] = "reach assertions %d, all refuted (state space non-empty): %s" % (len(reach), vac_ok)
     res["samples"] = ["%s: %s: %s" % o for o in real[:2] + real[-1:]]
     bad = [o for o in real if o[2] != "SUCCESS"]
-    if any(o[2] in ("ERROR", "UNKNOWN") for o in real):
+    if any(o[2] in ("ERROR", "UNKNOWN") for o in real) and not any(o[2] == "FAILURE" for o in real):
         res.update(status="undecided", reason="back end returned ERROR/UNKNOWN for %d obligations" %
                    sum(1 for o in real if o[2] in ("ERROR", "UNKNOWN")))
         return res
@@ -159,6 +159,8 @@ def run_unit(spec):
             res.update(status="undecided", reason="loop contract supplied but no loop_invariant_step obligation generated")
         return res
     # something failed: classify
+    # FAILURE is definite; UNKNOWN (reported next to failures by cbmc 6) is not counted as failed
+    bad = [o for o in bad if o[2] == "FAILURE"]
     res["failed"] = [dict(name=o[0], desc=o[1], kind=classify(o[0], o[1])) for o in bad]
     kinds = set(f["kind"] for f in res["failed"])
     if kinds <= {"unwind"}:
